@@ -1,0 +1,21 @@
+//go:build verif
+
+// Contracts for package samlidp, read by /verif/engine (govc). This file contains only a
+// package clause and structured comments; it is excluded from normal builds.
+package samlidp
+
+//@ -- C20: lock discipline as sequential ghost state. Every access to a guarded field needs its lock (write
+//@ -- lock for updates); locks are not re-acquired while held; every function releases what it took.
+//@ guardedby MemoryStore.data mu
+//@ guardedby Server.serviceProviders idpConfigMu
+//@ mapinv Server.serviceProviders nonnil
+
+//@ globalinv not_found: ErrNotFound != nil
+//@ globalinv login_template: defaultLoginFormTemplate != nil
+
+//@ contract (*MemoryStore).Get
+//@ contract (*MemoryStore).Put
+//@ contract (*MemoryStore).Delete
+//@ contract (*MemoryStore).List
+//@ contract (*Server).GetServiceProvider
+//@ ensures[C19,C05] found: err == nil ==> result != nil
